@@ -744,7 +744,7 @@ func TestVerif_C19_GatherPath(t *testing.T) {
 		}
 		fn := newFakeNet(ifaces)
 		a, err := NewAgentWithOptions(WithNet(fn), WithLoggerFactory(lf), WithMulticastDNSMode(MulticastDNSModeDisabled),
-			WithCandidateTypes([]CandidateType{CandidateTypeHost, CandidateTypeRelay}), WithNetworkTypes([]NetworkType{NetworkTypeUDP4}),
+			WithCandidateTypes([]CandidateType{CandidateTypeHost, CandidateTypeRelay}), WithNetworkTypes([]NetworkType{NetworkTypeUDP4, NetworkTypeUDP6}), // (both families: a relay address of a disabled family is not published, C18)
 			WithInterfaceFilter(func(string) bool { return true }), // filtered path: one allocation per local address
 			WithUrls([]*stun.URI{{Scheme: stun.SchemeTypeTURN, Host: "198.51.100.2", Port: 3478, Proto: stun.ProtoTypeUDP, Username: "u", Password: "p"}}),
 			WithAddressRewriteRules(c19Plain(rules)...))
